@@ -901,7 +901,7 @@ func (g *c15Gen) value(s map[string]any, depth int) any {
 	case "object":
 		o := map[string]any{}
 		props, _ := s["properties"].(map[string]any)
-		for _, k := range sortedKeys(props) {
+		for _, k := range c15_sortedKeys(props) {
 			if g.r.Chance(65) {
 				o[k] = g.value(props[k].(map[string]any), depth+1)
 			}
@@ -918,7 +918,7 @@ func (g *c15Gen) value(s map[string]any, depth int) any {
 	return nil
 }
 
-func sortedKeys(m map[string]any) []string {
+func c15_sortedKeys(m map[string]any) []string {
 	ks := make([]string, 0, len(m))
 	for k := range m {
 		ks = append(ks, k)
@@ -1073,7 +1073,7 @@ func (g *c15Gen) call(kind string, doc map[string]any) map[string]any {
 			case "multipart/form-data":
 				var parts []any
 				props := bodySchemaProps(bs)
-				for _, k := range sortedKeys(props) {
+				for _, k := range c15_sortedKeys(props) {
 					ps := props[k].(map[string]any)
 					if ps["type"] == "array" {
 						for i := 0; i < 1+g.r.Intn(2); i++ {
@@ -1093,7 +1093,7 @@ func (g *c15Gen) call(kind string, doc map[string]any) map[string]any {
 			default:
 				var kv []string
 				props := bodySchemaProps(bs)
-				for _, k := range sortedKeys(props) {
+				for _, k := range c15_sortedKeys(props) {
 					ps := props[k].(map[string]any)
 					if ps["type"] == "array" {
 						kv = append(kv, k+"=1", k+"="+strconv.Itoa(1+g.r.Intn(2)))
@@ -1288,7 +1288,7 @@ func shrinkC15(c hx.Case) []hx.Case {
 			used[jstr(cl.(map[string]any), "schema")] = true
 		}
 		if ss, ok := doc["schemas"].(map[string]any); ok {
-			for _, k := range sortedKeys(ss) {
+			for _, k := range c15_sortedKeys(ss) {
 				if !used[k] && len(ss[k].(map[string]any)) > 0 {
 					x := cloneCase(c)
 					nd := cloneCase(doc)
